@@ -150,6 +150,7 @@ func checkC15(p *Prog, r *Report) {
 	r.rule("C15.G2", "postProcess re-arms its die arm after every processed item on every path and returns on die only when chPostProcessing is empty", 2)
 	r.rule("C15.G3", "the periodic update callback is re-submitted only on the not-closed arm", 1)
 	r.rule("C15.G4", "UDPSession.Close (no listener, owned conn) and Listener.Close (owned conn) close the transport", 2)
+	r.rule("C15.G7", "a receive goroutine ends on every failed socket read (no path from err != nil back to the read): closing the transport terminates it whatever error the transport reports (= C13.W9)", 4)
 	r.rule("C15.G6", "a session created by the listener is handed to Accept or closed on every path: nothing else holds a reference that could ever stop its goroutine and its scheduled callback", 1)
 	r.rule("C15.G5", "sends on chAccepts are controlled by the room test len < cap; sends on the scheduler's chTask are in a select with die", 2)
 
@@ -302,6 +303,26 @@ func checkC15(p *Prog, r *Report) {
 	checkPostProcessDrain(p, r)
 	checkUpdateResubmit(p, r)
 	checkCloseTransport(p, r)
+	{
+		key := "delegate:C13:" + r.curCfg
+		sub, _ := p.memo[key].(*Report)
+		if sub == nil {
+			sub = newReport("C13", r.Tier)
+			sub.curCfg = r.curCfg
+			checkC13(p, sub)
+			p.memo[key] = sub
+		}
+		for _, o := range sub.Obs {
+			if o.Rule != "C13.W9" || !strings.Contains(o.Construct, "loop ends") {
+				continue
+			}
+			if o.Status == Discharged {
+				r.ok("C15.G7", o.Func, o.Pos, o.Construct, o.Detail)
+			} else {
+				r.bad("C15.G7", o.Func, o.Pos, o.Construct, o.Detail, o.Witness)
+			}
+		}
+	}
 	checkCreatedSessionsOwned(p, r)
 	checkBoundedSends(p, r)
 }
@@ -643,7 +664,6 @@ func checkCalleeContracts(p *Prog, r *Report) {
 	// parse_data copies
 	pd := p.FuncOf(p.Method("KCP", "parse_data"))
 	heapPush := heapFunc(p, "Push")
-	get := p.Method("bufferPool", "Get")
 	if pd != nil && heapPush != nil {
 		c := p.CFG(pd)
 		n := 0
@@ -671,19 +691,8 @@ func checkCalleeContracts(p *Prog, r *Report) {
 				if !ok || !c.Dominates(sp, pushPt) {
 					continue
 				}
-				if rid, ok := ast.Unparen(st.Rhs).(*ast.Ident); ok {
-					if rv, ok := p.Info.Uses[rid].(*types.Var); ok {
-						for _, a := range p.Assignments(pd, rv) {
-							if a.Rhs != nil {
-								ast.Inspect(a.Rhs, func(x ast.Node) bool {
-									if call, ok := x.(*ast.CallExpr); ok && p.Callee(call) == get {
-										okCopy = true
-									}
-									return true
-								})
-							}
-						}
-					}
+				if p.freshPoolValue(pd, st.Rhs, 2) {
+					okCopy = true
 				}
 			}
 			r.check(okCopy, "C15.O4", pd.Name, p.Pos(s.Call), "wire data copied before it is kept", "the segment stored in rcv_buf carries a fresh pool copy of the payload", "the segment stored in rcv_buf still points into the caller's input buffer (which is reused for the next datagram)")
@@ -1146,7 +1155,7 @@ func checkCloseTransport(p *Prog, r *Report) {
 							return
 						}
 						if x.Op == "var" {
-							if v, ok := x.Obj.(*types.Var); ok && v == p.recvVar(fi) {
+							if v, ok := x.Obj.(*types.Var); ok && v == p.selfVar(fi) {
 								return
 							}
 						}
